@@ -1,5 +1,6 @@
 import Driver.Text
 import IppModel
+import IppModel.Spec.Requests
 namespace Ipp.Ops2
 open Ipp Ipp.Gen Ipp.Text
 
@@ -133,6 +134,13 @@ def dispatch2 (op : String) (args : List SExp) : Option String :=
            | none => some "(bad-arg)")
         | none => some "(bad-arg)")
      | _ => some "(bad-arg)")
+  | "thm10", [.atom k, .atom _, .atom j, .atom p, .list (.atom "calls" :: calls), c] =>
+    some (match opKindOf k, hexToNat j, hexToBytes p, calls.mapM readCall, readComponents c with
+     | some k, some j, some p, some calls, some u =>
+        let lhs := buildOp k u (UInt32.ofNat j) (if Spec.hasPayload k then p else []) calls
+        let rhs := Spec.request k u (UInt32.ofNat j) p (Spec.summary calls)
+        if showReq lhs == showReq rhs then "eq" else s!"DIFF {showReq lhs} VS {showReq rhs}"
+     | _, _, _, _, _ => "(bad-arg)")
   | "build", [.atom "new_response", .atom v, .atom s, .atom i] =>
     some (match hexToNat v, (hexToNat s).bind StatusCode.fromCode, hexToNat i with
      | some v, some st, some i => showReq (newResponse (UInt16.ofNat v) st (UInt32.ofNat i))
